@@ -9,9 +9,9 @@ import (
 	"github.com/lightninglabs/pool/sidecar"
 )
 
-// VerifDigestValidateOrderedTicket exposes the unexported
+// VerifC14ValidateOrderedTicket exposes the unexported
 // validateOrderedTicket to the verification harness (C14).
-func VerifDigestValidateOrderedTicket(ctx context.Context, t *sidecar.Ticket,
+func VerifC14ValidateOrderedTicket(ctx context.Context, t *sidecar.Ticket,
 	signer lndclient.SignerClient, db sidecar.Store) error {
 
 	return validateOrderedTicket(ctx, t, signer, db)
